@@ -1,6 +1,7 @@
 package main
 
 import (
+	"go/types"
 	"go/ast"
 	"go/constant"
 	"go/token"
@@ -93,7 +94,7 @@ func (p *Program) firstFieldTable(rel, name string) ([]string, token.Pos) {
 
 func c18R1(h H) {
 	r := h.r
-	r.Rule("R1", "already-encoded table: the set of Content-Encoding values for which SkipCompressedFilter.ShouldCompress returns false ⊇ {gzip} ∪ names in staticfiles.staticEncodingPriority", 3)
+	r.Rule("R1", "already-encoded table (E10): SkipCompressedFilter.ShouldCompress, evaluated on a response whose header carries each Content-Encoding the file server can emit (the names in staticfiles.staticEncodingPriority) or gzip, returns false; for a response without Content-Encoding it returns true", 4)
 	names, pos := h.p.firstFieldTable(sfPkg, "staticEncodingPriority")
 	if len(names) == 0 {
 		r.Unresolve("R1", "staticfiles.staticEncodingPriority not found as a literal table")
@@ -103,40 +104,32 @@ func c18R1(h H) {
 	if fn == nil {
 		return
 	}
-	// constants compared with Header().Get("Content-Encoding") whose equal-edge leads to `return false`
+	// the filter as a decision table (E10): the response header carries one Content-Encoding value
 	declined := map[string]bool{}
-	for _, i := range ifs(fn) {
-		x, eq, lit, ok := strCmp(i.Cond)
-		if !ok {
-			continue
-		}
-		c, isCall := x.(*ssa.Call)
-		if !isCall || calleeName(&c.Call) != "(net/http.Header).Get" {
-			continue
-		}
-		if s, ok := constString(c.Call.Args[1]); !ok || s != "Content-Encoding" {
-			continue
-		}
-		e := condEdge{i, eq}.edge()
-		s := e.From.Succs[e.Idx]
-		// all returns reachable from the equal edge without another comparison return false
-		allFalse, any := true, false
-		visit := func(in ssa.Instruction) bool {
-			if rt, ok := in.(*ssa.Return); ok {
-				any = true
-				if cst, ok := rt.Results[0].(*ssa.Const); !ok || cst.Value.String() != "false" {
-					allFalse = false
+	undecided := map[string]string{}
+	mapT, _ := types.Unalias(h.p.typeByName("net/http", "Header")).Underlying().(*types.Map)
+	for _, enc := range append([]string{"gzip", "", "identity"}, names...) {
+		enc := enc
+		env := &absEnv{globals: map[string]*aobj{}, noFork: true, maxSteps: 20000}
+		env.ext = func(callee string, args []aval) (aval, bool) {
+			if callee == "invoke:Header" {
+				m := amap{&amapData{vals: map[string]aval{}, keys: map[string]aval{}, typ: mapT}}
+				if enc != "" {
+					m.m.vals["s:Content-Encoding"] = newVals([]aval{astr(enc)}, types.Typ[types.String])
+					m.m.keys["s:Content-Encoding"] = astr("Content-Encoding")
 				}
+				return m, true
 			}
-			return true
+			return nil, false
 		}
-		if f := firstInstr(s); f != nil && visit(f) {
-			reach(fn, f, cut{instr: func(in ssa.Instruction) bool { _, isIf := in.(*ssa.If); return isIf }}, visit)
-		}
-		if any && allFalse {
-			declined[lit] = true
+		res, und := env.run(fn, []aval{astruct{map[string]aval{}}, aiface{aptr{&aobj{name: "writer", typ: types.Typ[types.Int], f: map[string]aval{}}, ""}, types.Typ[types.Int]}})
+		if b, ok := res.(abool); ok && und == "" {
+			declined[enc] = !bool(b)
+		} else {
+			undecided[enc] = und + " " + describeAval(res)
 		}
 	}
+	r.Check(!declined[""] && undecided[""] == "", "R1", "gzip.SkipCompressedFilter.ShouldCompress/compresses-unencoded", pos, "a response without Content-Encoding is eligible for compression", undecided[""])
 	want := []string{"gzip"}
 	for _, n := range names {
 		if n != "gzip" {
@@ -144,7 +137,7 @@ func c18R1(h H) {
 		}
 	}
 	for _, n := range want {
-		r.Check(declined[n], "R1", "gzip.SkipCompressedFilter.ShouldCompress/declines:"+n, pos, "a response already encoded with "+n+" is not gzipped again")
+		r.Check(declined[n], "R1", "gzip.SkipCompressedFilter.ShouldCompress/declines:"+n, pos, "a response already encoded with "+n+" is not gzipped again", undecided[n])
 	}
 }
 
@@ -314,145 +307,13 @@ func c18R3(h H) {
 
 func c18R4(h H) {
 	r := h.r
-	r.Rule("R4", "sibling selection: in FileServer.serveFile the Open of <path>+E.ext is guarded by an 'accepted' flag that is (re)initialised inside the loop over staticEncodingPriority (no φ of the flag at that loop's header), whose true assignment lies behind a comparison of a token of the Accept-Encoding header with E.name, and the response is labelled Content-Encoding: E.name — all three with the same element E", 3)
-	fn := h.fn("R4", sfPkg, "FileServer.serveFile")
-	if fn == nil {
-		return
+	r.Rule("R4", "sibling selection as a decision table (E10): FileServer.serveFile is evaluated against a modelled file system for every combination of {codings the client offers} x {precompressed siblings that exist} x {siblings on the hide list}; exactly one file reaches http.ServeContent — the sibling of the first coding of staticEncodingPriority that is offered, exists and is not hidden, labelled Content-Encoding: <that coding>, or the file itself without a Content-Encoding", 1)
+	t := fileServerTable(h)
+	fn := h.p.Func(sfPkg, "FileServer.serveFile")
+	pos := token.NoPos
+	if fn != nil {
+		pos = fn.Pos()
 	}
-	// the sibling open
-	var open *ssa.Call
-	allInstrs(fn, func(in ssa.Instruction) {
-		if ex, ok := in.(*ssa.Extract); ok {
-			if c := isJailedOpen(ex); c != nil && openKind(c.Call.Args[0]) == "precompressed-sibling" {
-				open = c
-			}
-		}
-	})
-	if open == nil {
-		r.Unresolve("R4", "serveFile: open of the precompressed sibling not found")
-		return
-	}
-	hd, loop := loopOf(open.Block())
-	if hd == nil {
-		r.Unresolve("R4", "serveFile: sibling open is not in a loop")
-		return
-	}
-	// element E: root of the .ext field read feeding the open
-	var elem ssa.Value
-	derives(open.Call.Args[0], func(v ssa.Value) bool {
-		if p, root := fieldPath(v); p == "ext" && elem == nil {
-			elem = root
-		}
-		return false
-	}, flowOpts{})
-	// flag guards of the open
-	flagOK, cmpOK := false, false
-	for _, g := range dominatingGuards(fn, firstInstr(hd), open) {
-		ph, isPhi := g.Cond.(*ssa.Phi)
-		if !isPhi || !g.Pos {
-			continue
-		}
-		src, pure := trueSources(ph)
-		if !pure || len(src) == 0 {
-			continue
-		}
-		// φ web must not sit at the outer loop header
-		carried := false
-		seen := map[ssa.Value]bool{}
-		var walk func(v ssa.Value)
-		walk = func(v ssa.Value) {
-			p2, ok := v.(*ssa.Phi)
-			if !ok || seen[v] {
-				return
-			}
-			seen[v] = true
-			if p2.Block() == hd || !loop[p2.Block()] {
-				carried = true
-			}
-			for _, e := range p2.Edges {
-				walk(e)
-			}
-		}
-		walk(ph)
-		flagOK = !carried
-		// true sources behind name comparison with the same element
-		all := true
-		for _, b := range src {
-			okB := false
-			for _, gg := range guardAtoms(fn, firstInstr(hd), lastInstr(b)) {
-				bo, ok := gg.Cond.(*ssa.BinOp)
-				if !ok || bo.Op != token.EQL || !gg.Pos {
-					continue
-				}
-				for _, pair := range [][2]ssa.Value{{bo.X, bo.Y}, {bo.Y, bo.X}} {
-					p, root := fieldPath(pair[1])
-					fromHdr := derives(pair[0], func(v ssa.Value) bool {
-						c, ok := v.(*ssa.Call)
-						if !ok || calleeName(&c.Call) != "(net/http.Header).Get" {
-							return false
-						}
-						s, _ := constString(c.Call.Args[1])
-						return s == "Accept-Encoding"
-					}, flowOpts{throughCalls: true})
-					if p == "name" && fromHdr && (elem == nil || sameValue(root, elem) || root == elem) {
-						okB = true
-					}
-				}
-			}
-			if !okB {
-				all = false
-			}
-		}
-		cmpOK = all
-	}
-	// flag-free form of the same decision (e.g. a token-matching helper with early returns): within one
-	// iteration of the coding loop, the open is reachable only through the 'equal' outcome of a comparison of
-	// an Accept-Encoding token with this coding's name
-	{
-		fromHdr := func(x ssa.Value) bool {
-			return derives(x, func(v ssa.Value) bool {
-				c, ok := v.(*ssa.Call)
-				if !ok || calleeName(&c.Call) != "(net/http.Header).Get" {
-					return false
-				}
-				s, _ := constString(c.Call.Args[1])
-				return s == "Accept-Encoding"
-			}, flowOpts{throughCalls: true})
-		}
-		eqEdges := map[edge]bool{}
-		for _, i := range ifs(fn) {
-			v, flip := stripNot(i.Cond)
-			bo, ok := v.(*ssa.BinOp)
-			if !ok || (bo.Op != token.EQL && bo.Op != token.NEQ) {
-				continue
-			}
-			for _, pair := range [][2]ssa.Value{{bo.X, bo.Y}, {bo.Y, bo.X}} {
-				p, root := fieldPath(pair[1])
-				if p == "name" && (elem == nil || sameValue(root, elem) || root == elem) && fromHdr(pair[0]) {
-					eqEdges[condEdge{i, (bo.Op == token.EQL) != flip}.edge()] = true
-				}
-			}
-		}
-		if len(eqEdges) > 0 && !canReach(fn, firstInstr(hd), open, cut{edges: eqEdges}) {
-			flagOK, cmpOK = true, true
-		}
-	}
-	r.Check(flagOK, "R4", "staticfiles.FileServer.serveFile/accepted-flag-per-encoding", open.Pos(), "whether the client accepts a coding is decided afresh for every coding (a flag carried over from a previous coding would serve codings the client never offered)")
-	r.Check(cmpOK, "R4", "staticfiles.FileServer.serveFile/accepted-means-listed", open.Pos(), "a coding counts as accepted only if one of the Accept-Encoding tokens equals that coding's name")
-	// label
-	lbl := false
-	allInstrs(fn, func(in ssa.Instruction) {
-		c := callOf(in)
-		if c == nil || calleeName(c) != "(net/http.Header).Set" {
-			return
-		}
-		if s, ok := constString(c.Args[1]); !ok || s != "Content-Encoding" {
-			return
-		}
-		p, root := fieldPath(c.Args[2])
-		if p == "name" && (elem == nil || sameValue(root, elem) || root == elem) {
-			lbl = true
-		}
-	})
-	r.Check(lbl, "R4", "staticfiles.FileServer.serveFile/labelled-with-same-coding", open.Pos(), "the sibling is labelled with the name of the coding whose extension was opened")
+	r.Check(t.sibling == "" && t.other == "", "R4", "staticfiles.FileServer.serveFile/sibling-table", pos,
+		"a precompressed sibling is served only in a coding the client offered, labelled with that coding's own name, and in table order", sprintf("%d cases evaluated", t.cases), t.sibling, t.other)
 }
